@@ -1083,7 +1083,6 @@ Proof.
   - apply InvK_rstep; auto.
   - cbn in *. unfold cancel in *. destruct (nth_error (st_readers s) i) as [r|] eqn:E; [|exact IK].
     apply (InvK_neutral s _ i r (cancel_of r)); auto.
-    intros H. split; auto.
   - destruct (wstep_form s IW) as (p & E1 & E2 & E3). eapply InvK_notify; eauto.
   - cbn in *. destruct hs; [exact IK|]. eapply InvK_same; eauto.
 Qed.
